@@ -1,9 +1,14 @@
 // C08 harness: determinism and schedule independence of Circuit::placeGlobal / legalize / placeDetailed
 //   determ gen rand SEED COUNT [MAXCELLS]       print case lines
-//   determ run [tsan] < cases                   one result line per case
+//   determ run [tsan|fill] < cases              one result line per case
 // case:   "DT <rows> <cells> <nets> effort seed noise1e6 aux"
 //           rows/cells/nets as in cgen.hpp (showRowsCells / showNets); seed = ColoquinteParameters::seed;
 //           noise1e6 = global.noise * 1e6 (-1: keep the default); aux = seed of the schedule delays / unrelated runs
+//         optional 5th number pseed (0 / absent: the parameters above only): seed of perturbParams, which moves EVERY field of
+//           ColoquinteParameters that check() lets vary (global.nbInitialSteps 0..3, net model, all rough-legalization / penalty /
+//           continuous-model / legalization-ordering / detailed-placement knobs) away from its default with probability 1/2 each,
+//           inside the accepted box (the set is dropped for the defaults when check() refuses it); par=<hex mask> in the result
+//           line has bit i set when field i (order of paramFields) differs from the default set of the case
 // result: "OK runs=<n> lb=<LowerBound callbacks seen> hook=<solve-hook calls> forced=<steps whose completion order was forced>
 //              unforced=<steps where forcing timed out> axis=<0/1 x/y models identified by address> cbsig=<hash of all
 //              placements seen by the observing callback> sol=<G outcome+placement> | <L ...> | <D ...>"
@@ -20,6 +25,12 @@
 //   were handed to the setters / addNet / setNetWeights / setSolution when the circuit was built are overwritten and freed, and
 //   the circuit the placed one was copied from is overwritten with another circuit, then destroyed); scrib=<callbacks that overwrote>.
 //   The callbacks never touch the circuit being placed: results must be bitwise those of the run without callback.
+//   uninit-fill-A / uninit-fill-B (UNINITIALISED-MEMORY oracle inside one process): before every stage the dead stack below the
+//   caller is overwritten with a 32-bit word (A: 0x3f800000 = 1.0f, B: 0x7fc00000 = NaN as a float), the stack below every
+//   solveWithPenalty worker thread likewise (solve hook, phase 0), and glibc fills every fresh and every freed heap block
+//   (mallopt(M_PERTURB, 85 / 170)); the base run sees whatever the process left behind.  A result that differs read memory
+//   nobody initialised; fill=<runs with a fill> in the result line.
+//   `run fill`: base, callback and the two fill runs only (the mode of the -ftrivial-auto-var-init builds, checks/c08.py).
 // The solve hook is `coloquinte_verif_solve_hook(model, phase)` (commit "verif hook: ..." in /repo, guarded by COLOQUINTE_VERIF);
 // without it hook=0 is printed and nothing is forced.
 #include <atomic>
@@ -31,6 +42,7 @@
 #include <optional>
 #include <thread>
 #include <unistd.h>
+#include <malloc.h>
 #include <algorithm>
 #include <array>
 #include <cassert>
@@ -77,8 +89,23 @@ static int axisOf(const void *m) {
   return m == (const void *)lo ? 0 : 1;
 }
 
+// ---- uninitialised-memory oracle: fill of dead stack (this thread, below the caller) and of heap blocks
+static bool fillOn = false;             // written by the main thread only while no task runs
+static uint32_t fillWord = 0;
+__attribute__((noinline)) static void paintStack(uint32_t word) {
+  const size_t N = 96 * 1024;           // 384 KB below the caller's frame: deeper than any frame of the flow on these circuits
+  volatile uint32_t buf[N];
+  for (size_t i = 0; i < N; ++i) buf[i] = word;
+  asm volatile("" ::: "memory");
+}
+static void setFill(bool on, uint32_t word, int heapByte) {
+  fillOn = on; fillWord = word;
+  mallopt(M_PERTURB, on ? heapByte : 0);   // glibc: fresh blocks are filled with ~byte, freed blocks with byte (0 = off)
+}
+
 static void hook(const void *model, int phase) {
   calls.fetch_add(1, std::memory_order_relaxed);
+  if (fillOn && phase == 0) paintStack(fillWord);   // the worker thread's stack below solveWithPenalty
   int m = mode;
   if (m == FREE) return;
   if (m == DELAY) {
@@ -201,6 +228,7 @@ static RunResult runFlow(Circuit &c, const ColoquinteParameters &p0, bool withCb
   };
   for (int st = 0; st < 3; ++st) {
     std::string res = "OK";
+    if (hk::fillOn) hk::paintStack(hk::fillWord);
     if (sc) sc->live = p0;
     const ColoquinteParameters &p = sc ? sc->live : p0;
     try {
@@ -219,10 +247,98 @@ static ColoquinteParameters makeParams(int effort, int seed, long long noise1e6)
   return p;
 }
 
+// ---- parameter variation: every field of ColoquinteParameters that check() lets vary (legalization.costModel accepts L1 only)
+// Box: as harness/flow.cpp perturbParams (CG tolerance 1e-1..1e-6, approximation / cutoff distances >= 0.1, windows <= 8 / 4,
+// reorderingMaxNbCells <= 6), maxNbSteps <= 12 and nbPasses <= 2 (short runs), sideMargin <= the default (a larger one can remove
+// every row: outside the domain of the flow), nbInitialSteps 0..3.  Each field moves with probability 1/2.
+static void perturbParams(ColoquinteParameters &p, uint64_t pseed) {
+  SplitMix g(pseed);
+  auto on = [&] { return g.coin(50); };
+  auto frac = [&](long long lo, long long hi, double den) { return (double)g.uni(lo, hi) / den; };
+  GlobalPlacerParameters &gp = p.global; RoughLegalizationParameters &rl = gp.roughLegalization;
+  ContinuousModelParameters &cm = gp.continuousModel; PenaltyParameters &pe = gp.penalty;
+  if (on()) gp.maxNbSteps = (int)g.uni(1, 12);
+  if (g.coin(60) || gp.nbInitialSteps >= gp.maxNbSteps) gp.nbInitialSteps = (int)g.uni(0, std::min(3, gp.maxNbSteps - 1));
+  if (on()) gp.nbStepsBeforeRoughLegalization = (int)g.uni(1, 3);
+  if (on()) gp.gapTolerance = g.coin(50) ? (g.coin(80) ? 0.0 : 1.0) : frac(0, 20, 100.0);      // mostly small: the run goes on past the first upper bound
+  if (on()) gp.distanceTolerance = g.coin(40) ? 0.0 : frac(0, 200, 100.0);
+  if (on()) gp.penaltyUpdateDistance = frac(1, 500, 100.0);
+  if (on()) gp.penaltyUpdateBackoff = frac(100, 300, 100.0);
+  if (on()) gp.exportBlending = g.coin(30) ? (g.coin(50) ? 0.0 : 1.0) : frac(-50, 150, 100.0);
+  if (on()) cm.netModel = cm.netModel == NetModelOption::Star ? NetModelOption::BoundToBound : NetModelOption::Star;
+  if (on()) cm.approximationDistance = frac(1, 100, 10.0);
+  if (on()) cm.approximationDistanceUpdateFactor = frac(80, 120, 100.0);
+  if (on()) cm.maxNbConjugateGradientSteps = g.coin(30) ? (int)g.uni(1, 3) : (int)g.uni(4, 999);
+  if (on()) cm.conjugateGradientErrorTolerance = std::pow(10.0, -(double)g.uni(1, 5));
+  if (on()) rl.costModel = (LegalizationModel)g.uni(1, 5);
+  if (on()) rl.nbSteps = g.coin(50) ? 0 : (int)g.uni(2, 3);
+  if (on()) rl.binSize = g.coin(50) ? (double)g.uni(1, 25) : frac(10, 250, 10.0);
+  auto window = [&](int &size, int &ov, int maxSize) {
+    if (on()) size = (int)g.uni(1, maxSize);
+    if (on()) ov = size > 1 ? (int)g.uni(1, size - 1) : (int)g.uni(1, 4);
+    else if (size > 1 && ov >= size) ov = size - 1;
+  };
+  window(rl.lineReoptSize, rl.lineReoptOverlap, 8);
+  window(rl.diagReoptSize, rl.diagReoptOverlap, 8);
+  window(rl.squareReoptSize, rl.squareReoptOverlap, 4);
+  if (on()) rl.unidimensionalTransport = !rl.unidimensionalTransport;
+  if (on()) rl.quadraticPenalty = g.coin(30) ? (g.coin(50) ? 0.0 : 1.0) : frac(0, 1000, 1000.0);
+  if (on()) rl.sideMargin = g.coin(40) ? 0.0 : frac(1, 85, 100.0);
+  if (on()) rl.coarseningLimit = frac(5, 5000, 10.0);
+  if (on()) rl.targetBlending = frac(-10, 89, 100.0);
+  if (on()) pe.cutoffDistance = frac(1, 1000, 10.0);
+  if (on()) pe.cutoffDistanceUpdateFactor = frac(80, 120, 100.0);
+  if (on()) pe.areaExponent = frac(51, 100, 100.0);
+  if (on()) pe.initialValue = frac(1, 100, 1000.0);
+  if (on()) pe.updateFactor = frac(101, 199, 100.0);
+  if (on()) pe.targetBlending = frac(50, 109, 100.0);
+  LegalizationParameters &lp = p.legalization;
+  if (on()) lp.orderingWidth = frac(-100, 200, 100.0);
+  if (on()) lp.orderingHeight = frac(-100, 200, 100.0);
+  if (on()) lp.orderingY = frac(-20, 20, 100.0);
+  DetailedPlacerParameters &dp = p.detailed;
+  if (on()) dp.nbPasses = g.coin(50) ? 0 : 2;
+  if (on()) dp.localSearchNbNeighbours = (int)g.uni(0, 8);
+  if (on()) dp.localSearchNbRows = (int)g.uni(0, 4);
+  if (on()) dp.shiftNbRows = g.coin(40) ? 1 : (int)g.uni(1, 6);
+  if (on()) dp.shiftMaxNbCells = g.coin(30) ? (int)g.uni(0, 3) : (int)g.uni(0, 200);
+  if (on()) dp.reorderingNbRows = (int)g.uni(1, 3);
+  if (on()) dp.reorderingMaxNbCells = (int)g.uni(0, 6);
+}
+
+// the fields in mask order (bit i of par=): compared with the default set of the case
+#define DT_FIELDS(F) F(global.maxNbSteps) F(global.nbInitialSteps) F(global.nbStepsBeforeRoughLegalization) F(global.gapTolerance) \
+  F(global.distanceTolerance) F(global.penaltyUpdateDistance) F(global.penaltyUpdateBackoff) F(global.exportBlending) F(global.noise) \
+  F(global.continuousModel.netModel) F(global.continuousModel.approximationDistance) F(global.continuousModel.approximationDistanceUpdateFactor) \
+  F(global.continuousModel.maxNbConjugateGradientSteps) F(global.continuousModel.conjugateGradientErrorTolerance) \
+  F(global.roughLegalization.costModel) F(global.roughLegalization.nbSteps) F(global.roughLegalization.binSize) \
+  F(global.roughLegalization.lineReoptSize) F(global.roughLegalization.lineReoptOverlap) F(global.roughLegalization.diagReoptSize) \
+  F(global.roughLegalization.diagReoptOverlap) F(global.roughLegalization.squareReoptSize) F(global.roughLegalization.squareReoptOverlap) \
+  F(global.roughLegalization.unidimensionalTransport) F(global.roughLegalization.quadraticPenalty) F(global.roughLegalization.sideMargin) \
+  F(global.roughLegalization.coarseningLimit) F(global.roughLegalization.targetBlending) F(global.penalty.cutoffDistance) \
+  F(global.penalty.cutoffDistanceUpdateFactor) F(global.penalty.areaExponent) F(global.penalty.initialValue) F(global.penalty.updateFactor) \
+  F(global.penalty.targetBlending) F(legalization.orderingWidth) F(legalization.orderingHeight) F(legalization.orderingY) \
+  F(detailed.nbPasses) F(detailed.localSearchNbNeighbours) F(detailed.localSearchNbRows) F(detailed.shiftNbRows) F(detailed.shiftMaxNbCells) \
+  F(detailed.reorderingNbRows) F(detailed.reorderingMaxNbCells)
+static uint64_t paramMask(const ColoquinteParameters &a, const ColoquinteParameters &b) {
+  uint64_t m = 0; int i = 0;
+#define F(f) if (!(a.f == b.f)) m |= 1ULL << i; ++i;
+  DT_FIELDS(F)
+#undef F
+  return m;
+}
+
 int main(int argc, char **argv) {
   std::string mode = argc > 1 ? argv[1] : "run";
+  if (mode == "fields") {   // the names behind the bits of par=
+#define F(f) printf("%s\n", #f);
+    DT_FIELDS(F)
+#undef F
+    return 0;
+  }
   if (mode == "gen") {
     SplitMix g(strtoull(argv[3], nullptr, 10)); long long count = atoll(argv[4]); int maxCells = argc > 5 ? atoi(argv[5]) : 24;
+    SplitMix gp(strtoull(argv[3], nullptr, 10) * 1000003ULL + 77);   // its own stream: the circuits of a seed are those of the earlier format
     for (long long it = 0; it < count; ++it) {
       GenOpts o; o.nets = true; o.utilLo = 20; o.utilHi = 85; o.maxCells = maxCells; o.polarity = g.coin(50); o.turned = g.coin(50);
       TCircuit t = genCircuit(g, o);
@@ -231,12 +347,14 @@ int main(int argc, char **argv) {
         if (!any && !t.cells.empty() && !t.rows.empty()) { t.cells[0][6] = 0; if (t.cells[0][2] <= 0) t.cells[0][2] = 1; t.cells[0][3] = t.rows[0][3] - t.rows[0][2]; t.cells[0][4] = 0; } }
       int noiseSel = (int)g.uni(0, 3);   // default 1e-4, none, strong
       long long noise = noiseSel == 0 ? -1 : noiseSel == 1 ? 0 : noiseSel == 2 ? 100000 : 1000000;
-      printf("DT %s %s %d %d %lld %llu\n", showRowsCells(t).c_str(), showNets(t).c_str(), (int)g.uni(1, 4), (int)g.uni(-1, 1000), noise,
-             (unsigned long long)(g.next() % 1000000));
+      unsigned long long pseed = gp.coin(60) ? 1 + gp.next() % 1000000000ULL : 0;   // 40 %: the effort defaults (+ seed, noise)
+      printf("DT %s %s %d %d %lld %llu %llu\n", showRowsCells(t).c_str(), showNets(t).c_str(), (int)g.uni(1, 4), (int)g.uni(-1, 1000), noise,
+             (unsigned long long)(g.next() % 1000000), pseed);
     }
     return 0;
   }
   bool light = argc > 2 && std::string(argv[2]) == "tsan";   // fewer variants under TSan (10x slower); the unsynchronised ones stay
+  bool fillOnly = argc > 2 && std::string(argv[2]) == "fill";   // base, callback, fill runs (the -ftrivial-auto-var-init builds)
   vh_silence();
   std::string line;
   while (std::getline(std::cin, line)) {
@@ -245,7 +363,11 @@ int main(int argc, char **argv) {
     try {
       TCircuit t = readRowsCells(r); readNets(r, t);
       int effort = (int)r.nx(), seed = (int)r.nx(); long long noise = r.nx(); uint64_t aux = (uint64_t)r.nx();
-      ColoquinteParameters p = makeParams(effort, seed, noise);
+      uint64_t pseed = r.done() ? 0 : (uint64_t)r.nx();
+      const ColoquinteParameters pdef = makeParams(effort, seed, noise);
+      ColoquinteParameters p = pdef;
+      if (pseed) { perturbParams(p, pseed); try { p.check(); } catch (std::exception &) { p = pdef; } }
+      const uint64_t pmask = paramMask(p, makeParams(effort, seed, -1));   // against the effort defaults (global.noise: the case line's own knob)
       Circuit orig = buildCircuit(t);
       long hook0 = hk::calls.load(std::memory_order_relaxed);
       long forced0 = hk::forced, unforced0 = hk::unforced;
@@ -297,9 +419,25 @@ int main(int argc, char **argv) {
         sc.inputs = &li; sc.copySrc = &src; sc.other = &cu;
         cmp(name, runFlow(c, p, true, &sc), true); scribbles += sc.n;
       };
+      // uninitialised-memory oracle: the same flow over dead stack / fresh heap filled with two different contents
+      long fills = 0;
+      auto filled = [&](const char *name, uint32_t word, int heapByte, bool withCb) {
+        if (!diff.empty()) return;
+        hk::reset(hk::FREE, aux + runs);
+        hk::setFill(true, word, heapByte);
+        { Circuit c = orig; RunResult x = runFlow(c, p, withCb); hk::setFill(false, 0, 0); cmp(name, x, withCb); }
+        ++fills;
+      };
+      if (fillOnly) {
+        variant("callback", hk::FREE, true, 0);
+        filled("uninit-fill-A", 0x3f800000u, 85, false);
+        filled("uninit-fill-B", 0x7fc00000u, 170, true);
+      } else {
       variant("repeat", hk::FREE, false, 0);
       variant("copy", hk::FREE, false, 1);
       variant("callback", hk::FREE, true, 0);
+      filled("uninit-fill-A", 0x3f800000u, 85, false);
+      filled("uninit-fill-B", 0x7fc00000u, 170, true);
       variant("delays", hk::DELAY, false, 0);
       variant("delays+callback", hk::DELAY, true, 0);
       if (!light) variant("after-unrelated", hk::FREE, false, 2);
@@ -309,9 +447,11 @@ int main(int argc, char **argv) {
       if (!light) variant("after-unrelated+callback", hk::DELAY, true, 2);
       aliasing("callback-overwrites-its-parameters", hk::FREE, false);
       if (!light) aliasing("callback-overwrites-parameters+setter-arguments+copy-source", hk::DELAY, true);
+      }
       hk::reset(hk::FREE, 0);
       if (!diff.empty()) { printf("DIFF %s\n", diff.c_str()); fflush(stdout); continue; }
-      printf("OK runs=%d scrib=%ld lb=%ld hook=%ld forced=%ld unforced=%ld axis=%d cbsig=%llu sol=%s | %s | %s\n", runs, scribbles, cbBase.lb,
+      printf("OK runs=%d scrib=%ld fill=%ld par=%llx lb=%ld hook=%ld forced=%ld unforced=%ld axis=%d cbsig=%llu sol=%s | %s | %s\n", runs, scribbles, fills,
+             (unsigned long long)pmask, cbBase.lb,
              hk::calls.load(std::memory_order_relaxed) - hook0, hk::forced - forced0, hk::unforced - unforced0, (int)hk::axisOk,
              (unsigned long long)cbBase.cbsig, base.stage[0].c_str(), base.stage[1].c_str(), base.stage[2].c_str());
     } catch (std::exception &ex) { printf("THROW-OUTER %s\n", ex.what()); }
